@@ -11,6 +11,11 @@ use std::sync::{Arc, Mutex};
 const VALS: [&str; 14] = ["", " ", "   ", "a", "a b", " a ", "x=y", "\\", "a\\b", "é", "0", "false", "-r", "two  spaces"];
 
 pub fn gen(r: &mut Rng) -> Value {
+    if r.chance(1, 5) {
+        // a user-defined function used as the condition: the branch is decided by what a direct call returns
+        let vals = ["true", "false", "yes", "0", "x", ""];
+        return json!({"fn_cond": {"body_val": r.pick(&vals), "ret": r.pick(&["value", "bare", "fall"]), "ret_val": r.pick(&vals), "nested_if": r.chance(1, 2)}, "args": [], "wrapper": 0});
+    }
     let n = r.below(4);
     let args: Vec<String> = (0..n).map(|_| r.pick(&VALS).to_string()).collect();
     json!({"args": args, "wrapper": r.below(4)})
@@ -48,7 +53,59 @@ pub fn run(input: &Value) -> Option<Value> {
     })
 }
 
+fn truthy(v: &Option<String>) -> bool {
+    match v {
+        None => false,
+        Some(s) => {
+            let l = s.to_lowercase();
+            !(l.is_empty() || l == "0" || l == "false" || l == "no")
+        }
+    }
+}
+
+fn run_fn_cond(f: &Value) -> Option<Value> {
+    let body_val = f["body_val"].as_str()?;
+    let ret = f["ret"].as_str()?;
+    let ret_val = f["ret_val"].as_str()?;
+    let mut lines = vec!["fn probe_fn".to_string(), format!("inner = set \"{}\"", body_val)];
+    if f["nested_if"].as_bool().unwrap_or(false) {
+        lines.push("if true".to_string());
+    }
+    match ret {
+        "value" => lines.push(format!("return \"{}\"", ret_val)),
+        "bare" => lines.push("return".to_string()),
+        _ => lines.push("other = set \"x\"".to_string()),
+    }
+    if f["nested_if"].as_bool().unwrap_or(false) {
+        lines.push("end".to_string());
+    }
+    lines.push("end".to_string());
+    lines.push("direct = probe_fn".to_string());
+    lines.push("if probe_fn\nvia_if = set yes\nelse\nvia_if = set no\nend".to_string());
+    lines.push("via_not = not probe_fn".to_string());
+    let script = lines.join("\n");
+    let mut context = Context::new();
+    duckscriptsdk::load(&mut context.commands).ok()?;
+    match runner::run_script(&script, context, None) {
+        Ok(ctx) => {
+            let direct = ctx.variables.get("direct").cloned();
+            let want = truthy(&direct);
+            let got_if = ctx.variables.get("via_if").cloned();
+            let got_not = ctx.variables.get("via_not").cloned();
+            if got_if.as_deref() != Some(if want { "yes" } else { "no" }) || got_not != Some((!want).to_string()) {
+                Some(json!({"script": script, "what": "the branch taken differs from the one determined by the direct call's output", "direct_output": direct, "via_if": got_if, "via_not": got_not}))
+            } else {
+                None
+            }
+        }
+        Err(e) => Some(json!({"script": script, "error": e.to_string()})),
+    }
+}
+
 fn run_inner(input: &Value) -> Option<Value> {
+    if !input["fn_cond"].is_null() {
+        return run_fn_cond(&input["fn_cond"]);
+    }
     let args: Vec<String> = input["args"].as_array()?.iter().map(|v| v.as_str().unwrap().to_string()).collect();
     let wrapper = input["wrapper"].as_u64()?;
     let calls = Arc::new(Mutex::new(vec![]));
